@@ -1,10 +1,12 @@
 // C20: reference semantics of a ground-truth model whose classes are partly bound to externally supplied values, and the
 // under-constrained variants of a ground-truth model (definitions of chosen classes removed from the document).
 #pragma once
+#include <map>
 #include <string>
 #include <vector>
 
 #include "gt.h"
+#include "gtrun.h"
 
 namespace vp {
 
@@ -40,5 +42,35 @@ bool c20CanUnderconstrain(const GtModel &gt, int cls, std::string *why = nullptr
 // the single equation of a one-unknown NLA system without initial guess) of the given classes from gt.spec. The ground
 // truth values are left alone. Returns false when an equation could not be located.
 bool c20Underconstrain(GtModel &gt, const std::vector<int> &classes);
+
+
+// Appends a small chain to an ODE ground-truth model, in the home component of the VOI: a constant E (initial value),
+// A = E + 1.5 or A = 2*E (variant), optionally B = A + 7 (variant), and a state S with dS/dt = A. Truth values, roles and
+// dependency lists are filled in. Marking E external with a declared dependency on a state makes A state based only
+// through that declaration while a rate needs it. Returns the class index of E, or -1 when the model has no VOI.
+int c20InjectRateChain(GtModel &gt, unsigned variant);
+
+// ---- stale-order protocol (RunPlan::staleOrder): which values computeVariables has to get right
+//
+// Under the stale-order protocol `variables` holds first-point intermediates when computeVariables(second point) starts.
+// The generator recomputes there what was not computed by the earlier methods, every external variable, and every
+// algebraic / NLA equation that is "state/rate based" (depends, through equations and through the declared dependencies
+// of external variables, on a state). A variable that varies only with the VOI (or with an external variable that has
+// no state-based declared dependency) and that a rate needs is NOT recomputed (upstream design, pinned by the
+// Hodgkin-Huxley fixtures: i_Stim); it and everything computed from it is exempt from the comparison.
+struct C20Staleness
+{
+    std::vector<bool> stateBased; // per class: reference for AnalyserEquation::isStateRateBased() of its equation(s)
+    std::vector<bool> strict; // per class: the second-point value must be right after computeVariables under stale order
+};
+// external: per class, bound from outside (may be empty = none); declared: class -> classes declared as dependencies.
+C20Staleness c20Staleness(const GtModel &gt, const std::vector<bool> &external = {}, const std::map<int, std::vector<int>> &declared = {});
+
+// Copy of a run in which the second-point entries of the non-strict variables are replaced by the truth, so that
+// compareRunWithTruth(truth, map, <result>) judges exactly the strict ones. tolerated (optional) counts the replacements.
+RunResult c20TolerateStale(const GtModel &truth, const GtMapping &map, const RunResult &run, const C20Staleness &st, long *tolerated = nullptr);
+
+// Variables indices to put into RunPlan::staleResolve: NLA unknowns (role NLA in truth) whose system is state based.
+std::vector<size_t> c20StaleResolve(const GtModel &truth, const GtMapping &map, const C20Staleness &st);
 
 } // namespace vp
